@@ -43,7 +43,7 @@ public:
         int n = s.range(0, 14);
         for (int k = 0; k < n; k++) {
             Json e = Json::object();
-            std::string kind = s.pick<std::string>({"deliver", "deliver", "deliver", "deliver", "cand", "cand", "writeread", "copy"});
+            std::string kind = s.pick<std::string>({"deliver", "deliver", "deliver", "deliver", "deliver", "cand", "cand", "cand", "writeread", "copy", "begin"});
             e["k"] = kind;
             if (kind == "deliver") e["n"] = s.pick<int>({1, 1, 1, 2, 3, 5, 9});
             if (kind == "cand") { std::string ct = s.pick<std::string>({"iptotal", "level", "ipcurved", "iphyperbolic"}); e["type"] = ct; e["aniso"] = genAniso(s, d, ct, 1.0); e["tol"] = s.pick<double>({0.0, 1e-6, 1e-3}); e["criteria"] = s.pick<std::string>({"classic", "parents", "direction", "fds", "stable"}); e["by_output"] = s.chance(0.3); }
@@ -164,6 +164,9 @@ public:
                 try { r.read(is, bin); } catch (std::exception &ex) { out.fail("read-exception", base + "read-exception", ex.what()); return out; }
                 g = std::move(r); st.inc("fault.checkpoint_restore_interleaved");
                 if (!checkInvariants("after write/read of the half-built grid")) return out;
+            } else if (k == "begin") { // a driver that calls beginConstruction() defensively in every work cycle: no effect while construction is active
+                g.beginConstruction(); st.inc("fault.redundant_beginConstruction");
+                if (!checkInvariants("after a redundant beginConstruction()")) return out;
             } else if (k == "copy") {
                 TasmanianSparseGrid c; c.copyGrid(g); g = std::move(c); st.inc("fault.copy_interleaved");
                 if (!checkInvariants("after copying the half-built grid")) return out;
